@@ -34,6 +34,23 @@ class Poison(Exception):
     pass
 
 
+# All components share one process here, while in a pilot the executor is a
+# process of its own.  A fork from another component's thread (a stager running
+# `cp`) while the executor has a task script open for writing lets the child
+# inherit that descriptor, and exec'ing the script then fails with ETXTBSY.
+# Make script writing and process creation mutually exclusive *in the harness
+# process* to restore the separation processes give.
+import subprocess as _sp
+_FORK_LOCK = mt.RLock()
+if not getattr(_sp.Popen, '_rpverif_locked', False):
+    _orig_popen_init = _sp.Popen.__init__
+    def _locked_popen_init(self, *a, **k):
+        with _FORK_LOCK:
+            return _orig_popen_init(self, *a, **k)
+    _sp.Popen.__init__ = _locked_popen_init
+    _sp.Popen._rpverif_locked = True
+
+
 # ------------------------------------------------------------------------------
 #
 class _Wire(rp.Session):
@@ -245,6 +262,13 @@ class MiniPilot(object):
              lambda task, act: task['uid'])
         wrap(self.tin,      '_handle_task',         'tmgr_stagein',
              lambda task, act: task['uid'])
+
+        # see _FORK_LOCK above
+        for name in ('_create_exec_script', '_create_launch_script'):
+            def locked(*a, _f=getattr(ex, name), **k):
+                with _FORK_LOCK:
+                    return _f(*a, **k)
+            setattr(ex, name, locked)
 
         # a whole work routine failing for the bulk which contains the uid
         for name, comp in (('agent_stagein', self.stagein),
